@@ -32,15 +32,20 @@ Definition witness_of_mint (r : P.redeemer) : witness :=
 (* ---- rids registered in the entries (what get_used_plutus_lang_versions iterates over) *)
 Definition ib_registered (st : P.ibuilder) : list N :=
   flat_map (fun hm => flat_map (fun ow => match snd ow with Some (P.WPlutus rid) => [rid] | _ => [] end) (snd hm)) (P.ib_scripts st).
-(* registered but not returned by get_plutus_input_scripts: the input is not (any more) a script input *)
-Definition ib_stale_entry (idx : list (P.outpoint * N)) (ow : P.outpoint * option P.wit) : list N :=
+(* registered but not returned by get_plutus_input_scripts: the input is not (any more) a script input, or it is now
+   locked by another script hash than the one the witness is registered under (repair ae86092) *)
+Definition ib_stale_entry (idx : list (P.outpoint * (bytes * N))) (h : bytes) (ow : P.outpoint * option P.wit) : list N :=
   match snd ow with
-  | Some (P.WPlutus rid) => match P.al_get P.outpoint_ltb (fst ow) idx with Some _ => [] | None => [rid] end
+  | Some (P.WPlutus rid) =>
+      match P.al_get P.outpoint_ltb (fst ow) idx with
+      | Some (h', _) => if eqb_of BytesOrd.bytes_ltb h' h then [] else [rid]
+      | None => [rid]
+      end
   | _ => []
   end.
 Definition ib_stale (st : P.ibuilder) : list N :=
   let idx := P.ib_index_map 0 (P.ib_inputs st) in
-  flat_map (fun hm => flat_map (ib_stale_entry idx) (snd hm)) (P.ib_scripts st).
+  flat_map (fun hm => flat_map (ib_stale_entry idx (fst hm)) (snd hm)) (P.ib_scripts st).
 Definition mint_registered (st : P.mbuilder) : list N :=
   flat_map (fun e => match snd e with P.MPlutus _ rid => [rid] | P.MNative _ => [] end) st.
 Definition wentries_registered {K} (st : list (K * option P.wit)) : list N :=
